@@ -75,9 +75,9 @@ var guardExempt = []GuardExempt{
 
 func init() {
 	register(&PropSpec{
-		ID: "C09",
+		ID:          "C09",
 		Explanation: "Guarded-by check over a frozen, hand-confirmed table of fields shared between goroutines: every read of a table field happens with its lock held (read or write mode) and every write with the lock held in write mode, where 'held' is computed by the SSA lock-state dataflow and extended interprocedurally (a helper that touches the field without locking puts a requirement on all its static callers; at API entry points, goroutine bodies and escaping function values the requirement must be empty). This decides the lock-discipline half of data-race freedom for the table fields; it is a necessary condition (a table field touched without its lock while another goroutine writes it is a race).",
-		NotDecided: []string{"races on anything that is not a table field", "happens-before through channels, errgroup.Wait and sync.Cond (exemptions are hand-confirmed)", "the dynamic (race-detector) half of the property"},
+		NotDecided:  []string{"races on anything that is not a table field", "happens-before through channels, errgroup.Wait and sync.Cond (exemptions are hand-confirmed)", "the dynamic (race-detector) half of the property"},
 		Assumptions: []string{"the guarded-by table and its exemptions (in checker/cmd/iscpcheck/c09.go) were confirmed by reading every access", "lock identity by access path"},
 		Rules: func(r *Run) {
 			le := newLockEngine(r.P)
